@@ -1192,10 +1192,38 @@ def _epoch(y, mo, d, h, mi, sec):
     return calendar.timegm((y, mo, d, h, mi, sec))
 
 
+_FRAC_SPECS = {"%.f": None, "%.3f": 3, "%.6f": 6, "%.9f": 9}
+
+
+def _split_fraction(s, f, zone):
+    """Fractional seconds directly after the seconds field: format ...%S<spec> / ...%T<spec> (before ' %z' when zoned).
+    Returns (text without the fraction, format without the spec, Fraction of a second).  The chrono documentation read here:
+    %.f takes a dot and 1-9 digits, %.3f/%.6f/%.9f a dot and exactly that many digits; anything else is left UNSPECIFIED."""
+    from fractions import Fraction
+    tailf = " %z" if zone else ""
+    if not f.endswith(tailf):
+        return s, f, Fraction(0)
+    core = f[:len(f) - len(tailf)] if tailf else f
+    for spec, ndig in _FRAC_SPECS.items():
+        if core.endswith(spec):
+            base = core[:-len(spec)]
+            m = re.match(r"^(.*\d\d:\d\d:\d\d)\.(\d{1,9})(%s)$" % (r" [+-]\d{4}" if zone else ""), s)
+            if m is None:
+                raise Unspecified("text that may or may not match a fractional-seconds format")
+            digits = m.group(2)
+            if ndig is not None and len(digits) != ndig:
+                raise Unspecified("number of fraction digits differs from the format")
+            if len(digits) > 6 and digits[6:].strip("0"):
+                raise Unspecified("sub-microsecond digits (the documents do not say whether they are kept)")
+            return m.group(1) + m.group(3), base + tailf, Fraction(int(digits), 10 ** len(digits))
+    return s, f, Fraction(0)
+
+
 def _parse_time_common(a, c, zone):
     s, f = plain(A(a, c, 0)), plain(A(a, c, 1))
     if not isinstance(s, str) or not isinstance(f, str):
         return NOTHING
+    s, f, frac = _split_fraction(s, f, zone)
     if zone:
         if not f.endswith(" %z") or f[:-3] not in _PT_FORMATS:
             raise Unspecified("time format outside the portable subset")
@@ -1217,6 +1245,8 @@ def _parse_time_common(a, c, zone):
     if zone:
         off = (int(g[7]) * 3600 + int(g[8]) * 60) * (1 if g[6] == "+" else -1)
         t -= off
+    if frac:
+        return norm(float(t + frac))
     return t
 
 
